@@ -48,8 +48,17 @@ InMeshSound == \A k \in DOMAIN Smalls : \A t \in MOccInMesh(Smalls[k], M2) :
 ClassicalAsUnshaded == shade = {} => \A k \in DOMAIN Smalls :
                           Smalls[k].R = {} => MOccInMesh(Smalls[k], M2) = POcc(Smalls[k].p, patt)
 
+\* every pattern occurs in itself at its own points (and nowhere else with all its points)
+SelfOccurs == MOccInMesh(M2, M2) = {[i \in 1..K |-> i]}
+\* containment between patterns is transitive through the reported occurrences: composing an occurrence of
+\* Smalls[j] in Smalls[k] with one of Smalls[k] in M2 gives an occurrence of Smalls[j] in M2
+OccCompose == \A k \in DOMAIN Smalls : \A t \in MOccInMesh(Smalls[k], M2) :
+                 \A j \in DOMAIN Smalls : \A u \in MOccInMesh(Smalls[j], Smalls[k]) :
+                    [i \in DOMAIN u |-> t[u[i]]] \in MOccInMesh(Smalls[j], M2)
+
 EmitState == PrintT(ToJson([p |-> patt, R |-> shade,
                             subs |-> {[S |-> [i \in DOMAIN MSortedSeq(S) |-> MSortedSeq(S)[i] - 1],
                                        p |-> MSubMesh(M2, S).p, R |-> MSubMesh(M2, S).R] : S \in PointSets},
+                            self |-> MOccInMeshSeq0(M2, M2),
                             occ |-> [k \in DOMAIN Smalls |-> MOccInMeshSeq0(Smalls[k], M2)]]))
 =============================================================================
